@@ -414,27 +414,48 @@ def _op(s):
 class C09(Property):
     id = "C09"
     title = "Sequence elements behave as Python lists of member elements"
-    proof_module = "Proofs.C09"
+    proof_module = "Proofs.C09All"
     theorems = [
         "Flatland.C09.Proofs.step_refines",
         "Flatland.C09.Proofs.run_refines",
+        "Flatland.C09.Proofs.run_refines_scalar",
+        "Flatland.C09.Proofs.histOK_of_static",
+        "Flatland.C09.Proofs.set_nonlist_refines",
+        "Flatland.C09.Proofs.imul_guard_scalar",
+        "Flatland.C09.Proofs.imul_fixed_is_python",
         "Flatland.C09.Proofs.members_typed",
         "Flatland.C09.Proofs.items_eq_members",
         "Flatland.C09.Proofs.positional_step",
+        "Flatland.Tree.setNode_indep",
+        "Flatland.Tree.fromDefaults_indep",
+        "Flatland.Tree.wrap_plain_ok",
+        "Flatland.Tree.setNode_member",
         "Flatland.C09.Proofs.C09_full_fails",
         "Flatland.C09.Proofs.C09_fullMembers_fails",
     ]
     level_text = "proof (partial)"
-    level_note = ("THEOREM (partial): step_refines/run_refines — refinement to the CPython list functions, over the (value,u) "
-                  "abstraction, ONLY for Integer/String member schemas and plain arguments in {None,int,str} (or Elements "
-                  "of the member schema), for append/extend/+=/insert/item+slice assignment/item+slice deletion/pop/"
-                  "remove/reverse/clear/sort(key in {u,len u})/set(list)/len/getitem/getslice/in/index/count; run_refines "
-                  "needs EVERY call of the history in that set (a history containing set_default, key-less sort, "
-                  "set(non-list) or *= is not covered). positional_step — every call incl. *=, clear, set, set_default, "
-                  "every member schema. REFUTED readings: value-only (C09_Full, KF-C09-a), container members "
-                  "(C09_FullMembers, KF-C09-b). ORACLE ONLY: Dict/List members, set_default, *=, key-less sort, set_flat, "
-                  "results of set/set_default/construction routes (checked against the adapted input by the oracle), "
-                  "model paths answering `unsupported`")
+    level_note = ("THEOREM (partial): step_refines/run_refines — refinement to the CPython list functions over the (value,u) "
+                  "structure `sig` of a member (for a Dict/List member: its whole exported state), for EVERY member schema "
+                  "(Integer, String, Dict, SparseDict, List, Array ...) and EVERY call of the model: adaptOp is total — "
+                  "append/extend/+=/insert/item+slice assignment/item+slice deletion/pop/remove/reverse/sort(key)/len/"
+                  "getitem/getslice/in/index/count as before, and now clear, set(list), set(None|int) (empties, returns "
+                  "False: set_nonlist_refines), set_default (no default: nothing; List with int default k: k members from "
+                  "member.from_defaults(); list default: its adapted values), key-less sort (a list of objects without "
+                  "ordering: TypeError for >= 2 items, no-op below), *= (count<=0 empties; else count-1 copies of the "
+                  "members' re-adapted values: ROp.imul with re = sig(member_schema(value or u)); imul_fixed_is_python: "
+                  "literally CPython's *= when the members are fixed points of re). The adapted value of a plain "
+                  "argument is sig(member_schema(value)), well defined because set()/from_defaults() do not look at ids "
+                  "or stored parents (setNode_indep, fromDefaults_indep, wrap_plain_ok). run_refines holds for every "
+                  "history whose calls satisfy the guard OpOK in the state they are made in (HistOK); for Integer/String "
+                  "members the guard is static (run_refines_scalar). GUARD (exact): plain arguments are values "
+                  "member_schema(value=...) accepts without raising, Element arguments are of the member schema; item "
+                  "assignment of a plain value onto a List of Dict/SparseDict members needs a dict-like value "
+                  "(SetItemOK/Resets; the excluded case is refuted: C09_fullMembers_fails = KF-C09-b); sort(key) needs "
+                  "scalar members; set(str|dict) is outside the model; set_default needs DefaultOK; *= with count>0 needs "
+                  "a non-MultiValue member schema whose re-fed values are accepted (automatic for Integer/String: "
+                  "imul_guard_scalar). positional_step — every call, every member schema. REFUTED reading: value-only "
+                  "(C09_Full, KF-C09-a). ORACLE ONLY: set_flat/from_flat, the flags returned by set(list), model paths "
+                  "answering `unsupported` (= the calls the guard excludes)")
     technique = "refinement proof (Lean 4) + differential testing against the implementation and a real Python list"
     trusted_base = [
         "CPython list semantics (index normalisation, PySlice_AdjustIndices, slice assignment/deletion, insert "
@@ -447,7 +468,8 @@ class C09(Property):
     ]
     assumptions = [
         "sort keys range over the family {u, len(u)} with and without reverse; sort() without key raises TypeError "
-        "as a list of elements does (recorded non-defect) and is not compared with the reference list",
+        "as a list of elements does (recorded non-defect): its reference operation is ROp.sortNoKey (sort on items "
+        "without ordering), not the sort of a list of ints",
         "`*=` (Sequence.__imul__, commit 33a67e3: fresh members from the members' values) is modelled and compared; "
         "`+` and `*` return plain lists and are not element operations",
         "re-inserting an element that is already a member (`l.append(l[0])`) is aliasing, outside the quantifier",
